@@ -90,10 +90,6 @@ Ltac px_step rtac on_oracle on_other :=
             | false => change (glob_get P h x) with (VGlobal x)
             | true => on_other hd
             end
-        | val_is ?a ?b =>
-            first [ is_var a;
-                    lazymatch b with VNone => rewrite (val_is_none_r a); destruct (is_none a) eqn:? end
-                  | let r := eval vm_compute in (val_is a b) in change (val_is a b) with r ]
         | nr ?O ?n ?g ?a ?kw ?h => rewrite (nr_eq O n g a kw h)
         | snd (?O ?n ?g ?a ?kw ?h) => on_oracle O n g a kw h
         | fst (?O ?n ?g ?a ?kw ?h) => on_oracle O n g a kw h
@@ -108,8 +104,29 @@ Ltac px_step rtac on_oracle on_other :=
       cbv beta iota
   end.
 
+(* [is] tests: a folded test on concrete values is computed, one on a symbolic value is rewritten
+   with a hypothesis (used with px_cbv_nois) *)
+Ltac px_is hd :=
+  lazymatch hd with
+  | val_is ?a ?b =>
+      lazymatch goal with
+      | H : val_is a b = _ |- _ => rewrite H
+      | _ => let r := eval vm_compute in (val_is a b) in rewrite (eq_refl r : val_is a b = r)
+      end
+  end.
+
 (* the part of the whitelist every family shares *)
 Ltac px_cbv extra :=
+  cbv beta iota zeta delta
+    [eval evals evalkw ocall run_beh call_value call_method call_fun assign assigns
+     truthy_k nth_k subscript_k contains_k builtin_method_k iter_items dispatch strip_exc
+     truthy val_is val_eqb aget aset const_val bind_params bind_params_aux fextra fparams fbody
+     forallb existsb option_map String.eqb Ascii.eqb Bool.eqb strmem
+     before_dot append
+     fst snd List.length Nat.eqb exn module_dict negb andb orb hset nr
+     nth_error Z.to_nat Z.ltb Z.eqb Z.compare Pos.compare Pos.compare_cont Pos.to_nat Pos.iter_op Nat.add].
+
+Ltac px_cbv_nois extra :=
   cbv beta iota zeta delta
     [eval evals evalkw ocall run_beh call_value call_method call_fun assign assigns
      truthy_k nth_k subscript_k contains_k builtin_method_k iter_items dispatch strip_exc
